@@ -198,6 +198,12 @@ type seenInfo struct {
 }
 
 func (tp *txnPeer) send(kind string, f peerkit.Frame, forID int, tok string) {
+	// the whole of it -- both log entries and the write -- is one critical section, so that the order of peer_tx and of
+	// the event log IS the order on the wire even when several reply goroutines send at the same instant
+	if tp.evMu != nil {
+		tp.evMu.Lock()
+		defer tp.evMu.Unlock()
+	}
 	tp.mu.Lock()
 	*tp.tx = append(*tp.tx, txnPeerTx{Seq: len(*tp.tx) + 1, Gen: tp.gen, Kind: kind, St: f.ST, Sb: f.Sb, S: f.B2 & 0x7f, F: f.B3,
 		W: f.B2&0x80 != 0, B3: f.B3, For: forID, Tok: tok, Sel: tp.sel})
@@ -212,12 +218,8 @@ func (tp *txnPeer) send(kind string, f peerkit.Frame, forID int, tok string) {
 		}
 	}
 	tp.mu.Unlock()
-	if tp.evMu != nil { // log entry and write form one critical section: the log order is the wire order
-		tp.evMu.Lock()
+	if tp.evMu != nil {
 		*tp.ev = append(*tp.ev, txnEv{D: "tx", Kind: kind, Sb: f.Sb, Tok: tok, Gen: gen})
-		_ = tp.p.Send(f)
-		tp.evMu.Unlock()
-		return
 	}
 	_ = tp.p.Send(f)
 }
@@ -269,13 +271,13 @@ func (tp *txnPeer) loop() {
 			tp.mu.Unlock()
 		}
 		tok := tokenOf(f.Body)
-		tp.mu.Lock()
-		*tp.rx = append(*tp.rx, txnPeerRx{Gen: tp.gen, Tok: tok, Sb: f.Sb, W: f.B2&0x80 != 0})
-		if tp.evMu != nil {
+		if tp.evMu != nil { // lock order: evMu before tp.mu (as in send)
 			tp.evMu.Lock()
 			*tp.ev = append(*tp.ev, txnEv{D: "rx", Kind: "primary", Sb: f.Sb, Tok: tok, Gen: tp.gen})
 			tp.evMu.Unlock()
 		}
+		tp.mu.Lock()
+		*tp.rx = append(*tp.rx, txnPeerRx{Gen: tp.gen, Tok: tok, Sb: f.Sb, W: f.B2&0x80 != 0})
 		script, known := tp.scripts[tok]
 		id := tp.ids[tok]
 		if known {
